@@ -323,6 +323,7 @@ func (n *Nodis) addBlockKeys(c chan string, keys ...string) {
 			n.blockingKeys.Set(key, cList)
 		}
 		cList.LPush(c)
+		verifTrace("bp-reg", c, key, nil, true)
 	}
 	n.blockingKeysMutex.Unlock()
 }
@@ -337,7 +338,9 @@ func (n *Nodis) notifyBlockingKey(key string) {
 		cList.ForRange(func(c chan string) bool {
 			select {
 			case c <- key:
+				verifTrace("bp-notify", c, key, nil, true)
 			default:
+				verifTrace("bp-notify", c, key, nil, false)
 			}
 			return true
 		})
@@ -355,6 +358,7 @@ func (n *Nodis) removeBlockingKeys(rc chan string, keys ...string) {
 		cList.ForRangeNode(func(node *list.NodeG[chan string]) bool {
 			if node.Value() == rc {
 				cList.RemoveNode(node)
+				verifTrace("bp-unreg", rc, key, nil, true)
 				return false
 			}
 			return true
@@ -381,14 +385,18 @@ func (n *Nodis) blockingPop(timeout time.Duration, pop func(key string, count in
 		for _, key := range keys {
 			verifPoint("bpop.beforePop")
 			results := pop(key, 1)
+			verifTrace("bp-try", c, key, nil, len(results) > 0)
 			if len(results) > 0 {
 				return key, results[0]
 			}
 		}
 		verifPoint("bpop.beforeWait")
+		verifTrace("bp-block", c, "", nil, timeout > 0)
 		select {
 		case <-c:
+			verifTrace("bp-wake", c, "", nil, true)
 		case <-expired:
+			verifTrace("bp-timeout", c, "", nil, true)
 			return "", nil
 		}
 	}
